@@ -99,7 +99,7 @@ Proof.
   induction m using ms_ind_ext; cbn [enc ext_of_gen]; unfold hash_frag; try reflexivity.
   - (* pk_k *) unfold ext_pk_k. destruct (key_sig_bytes (fx_pkk fx) (xc_schnorr c) (xc_unc c k)). reflexivity.
   - (* pk_h *) unfold ext_pk_h. destruct (key_sig_bytes fx (xc_schnorr c) (xc_unc c k)). reflexivity.
-  - (* raw_pk_h *) unfold ext_pk_h. destruct (key_sig_bytes fx (xc_schnorr c) false). reflexivity.
+  - (* raw_pk_h *) unfold ext_pk_h_none, ext_pk_h. destruct (key_sig_bytes (fx_pkk fx) (xc_schnorr c) true). reflexivity.
   - (* after *) rewrite fv_script_cons2. reflexivity.
   - (* older *) rewrite fv_script_cons2. reflexivity.
   - (* a: *) rewrite app_assoc, fv_last_op. reflexivity.
@@ -144,7 +144,7 @@ Proof.
   - reflexivity.
   - unfold ext_pk_k. destruct (key_sig_bytes (fx_pkk fx) (xc_schnorr c) (xc_unc c k)). reflexivity.
   - unfold ext_pk_h. destruct (key_sig_bytes fx (xc_schnorr c) (xc_unc c k)). reflexivity.
-  - unfold ext_pk_h. destruct (key_sig_bytes fx (xc_schnorr c) false). reflexivity.
+  - unfold ext_pk_h_none, ext_pk_h. destruct (key_sig_bytes (fx_pkk fx) (xc_schnorr c) true). reflexivity.
   - reflexivity.
   - reflexivity.
   - reflexivity. - reflexivity. - reflexivity. - reflexivity.
@@ -247,7 +247,7 @@ Proof.
   - reflexivity.
   - apply N.eqb_eq in Hw. rewrite Hw. unfold ext_pk_k. destruct (key_sig_bytes (fx_pkk fx) (xc_schnorr c) (xc_unc c k)). reflexivity.
   - unfold ext_pk_h. destruct (key_sig_bytes fx (xc_schnorr c) (xc_unc c k)). reflexivity.
-  - unfold ext_pk_h. destruct (key_sig_bytes fx (xc_schnorr c) false). reflexivity.
+  - unfold ext_pk_h_none, ext_pk_h. destruct (key_sig_bytes (fx_pkk fx) (xc_schnorr c) true). reflexivity.
   - reflexivity.
   - reflexivity.
   - reflexivity. - reflexivity. - reflexivity. - reflexivity.
